@@ -39,9 +39,9 @@ Proof.
     right. left. exists ex_fms, ex_s. split; [exact ex_game|]. split; [cbn; lia|].
     exists []. split; [vm_compute; reflexivity|constructor].
   - (* position *)
-    right. right. right. exists []. split; [vm_compute; reflexivity|left; reflexivity].
+    right. right. right. left. exists []. split; [vm_compute; reflexivity|left; reflexivity].
   - (* position fen 8/8/8 w *)
-    right. right. right. eexists. split; [vm_compute; reflexivity|]. right. eexists. vm_compute. reflexivity.
+    right. right. right. left. eexists. split; [vm_compute; reflexivity|]. right. eexists. vm_compute. reflexivity.
   - (* position fen 6k1/5ppp/8/8/8/8/8/R3K3 w Q - 0 1 moves *)
     right. right. left. exists mate_six, mate_p0, [], (abs mate_p0).
     split; [reflexivity|]. split; [exact mate_p0_fen|]. split; [exact mate_p0_legal|].
@@ -135,7 +135,7 @@ Example white_game_computed :
      ["info string calculated timeout 900";
       "info depth 1 score cp 48 time * nodes 47 nps * hashfull 0 pv d2d4"; "bestmove d2d4"])],
    ST_IDLE).
-Proof. vm_compute. reflexivity. Qed.
+Proof. match goal with |- _ = ?r => vm_cast_no_check (eq_refl r) end. Qed.
 
 (* ... and what the theorem says about the same game under the bounds of C05: every hypothesis discharged (the search
    hypothesis by running the game under the bounds 10 / 60) *)
@@ -150,39 +150,12 @@ Proof.
   - apply script_opp_legal.
   - constructor; [exact rd1_ok|constructor; [exact rd2_ok|constructor; [exact rd1_ok|constructor]]].
   - cbn [List.length]. lia.
-  - vm_compute. discriminate.
-Qed.
-
-(* TWO ROUNDS, the engine plays Black *)
-Example black_game_computed :
-  show (gui_game 10 60 (script_opp white_script) go_engine_init [mv 4 1 4 3] [rd1; rd2]) =
-  (GAllRounds, ["e2e4"; "b8c6"; "g1f3"; "g8f6"; "f1c4"],
-   [(["position startpos moves e2e4"; "go depth 1"],
-     ["info string calculated timeout 900";
-      "info depth 1 score cp 0 time * nodes 24 nps * hashfull 0 pv b8c6"; "bestmove b8c6"]);
-    (["position startpos moves e2e4 b8c6 g1f3"; "xyzzy go depth 2 wtime 60000 btime 60000"],
-     ["info string calculated timeout 915";
-      "info depth 1 score cp 3 time * nodes 49 nps * hashfull 0 pv g8f6"; "bestmove g8f6"])],
-   ST_IDLE).
-Proof. vm_compute. reflexivity. Qed.
-
-Example black_game_instance :
-  let opp := script_opp white_script in
-  gui_game 510 1282 opp go_engine_init [mv 4 1 4 3] [rd1; rd2] = gui_game 10 60 opp go_engine_init [mv 4 1 4 3] [rd1; rd2] /\
-  game_ok 510 1282 10 60 opp [] [mv 4 1 4 3] 2 (gui_game 510 1282 opp go_engine_init [mv 4 1 4 3] [rd1; rd2]).
-Proof.
-  cbv zeta.
-  apply (engine_plays_black 510 1282 10 60 (script_opp white_script) [rd1; rd2] [] go_engine_init (mv 4 1 4 3)); try lia.
-  - exact reached_init.
-  - apply (proj2 (legal_moves_iff _ _)). vm_compute. reflexivity.
-  - apply script_opp_legal.
-  - constructor; [exact rd1_ok|constructor; [exact rd2_ok|constructor]].
-  - cbn [List.length]. lia.
-  - vm_compute. discriminate.
+  - (* the search hypothesis: the game played under the bounds 10 / 60 ends regularly (computed above) *)
+    pose proof (f_equal (fun x => fst (fst (fst x))) white_game_computed) as H.
+    change (gl_end (gui_game 10 60 (script_opp black_script) go_engine_init [] [rd1; rd2; rd1]) = GAllRounds) in H.
+    rewrite H. discriminate.
 Qed.
 
 Print Assumptions session2_reached.
 Print Assumptions white_game_computed.
 Print Assumptions white_game_instance.
-Print Assumptions black_game_computed.
-Print Assumptions black_game_instance.
